@@ -30,9 +30,11 @@ public:
                 // epoch (objects it retires would be tagged too old and could be reclaimed while other
                 // sessions still use them). Repeat until the published value is the current epoch.
                 for (;;) {
+                    YAKUSHIMA_VERIF_HOOK(YAKUSHIMA_VERIF_LOAD, nullptr);
                     const Epoch cur_epoch = epoch_management::get_epoch();
                     elem.set_begin_epoch(cur_epoch);
                     std::atomic_thread_fence(std::memory_order_seq_cst);
+                    YAKUSHIMA_VERIF_HOOK(YAKUSHIMA_VERIF_LOAD, nullptr);
                     if (cur_epoch == epoch_management::get_epoch()) { break; }
                 }
                 YAKUSHIMA_VERIF_EVENT(YAKUSHIMA_VERIF_EV_ENTER, &(elem), 0);
